@@ -202,6 +202,12 @@ fn parse_field(base_data_size: usize, field: &Field) -> Result<FieldDefinition> 
                     }
                     match range_parser {
                         ArgumentParser::RangeGotBothLimits(lower, upper) => {
+                            if lower > upper {
+                                return Err(Error::new_spanned(
+                                    &range_span,
+                                    "bitfield!: Invalid bit-range: the lower limit must not be larger than the upper limit",
+                                ));
+                            }
                             if !is_in_array && !is_range {
                                 return Err(Error::new_spanned(
                                     &range_span,
